@@ -284,6 +284,142 @@ fn c13_feed_miss_empty_index() {
 }
 
 // ===========================================================================
+// NOT REGISTERED (record of an attempt): neither of the two scenario harnesses below finishes -- even one feed with
+// every hash, size and offset concrete runs out of memory (5.5k VCCs after 125 s of symex, then > 14 GB).  `feed`'s
+// hit path stays decomposed (see the note further up); a seeded change inside `feed` itself (seeded/R3a) is missed.
+// `feed` on its HIT path, as scenario runs.  With symbolic hashes `feed`'s hit path does not get through the solver
+// (see the note above); with the hashes, sizes and the number of offsets concrete -- i.e. which feed hits which
+// entry is concrete control flow -- whole sequences of feeds finish, while the chunk DATA and the destination
+// OFFSETS stay symbolic.  Decided for all data and offsets: every write is the fed chunk's bytes at one of its
+// entry's offsets, each location once; the entry is gone afterwards, so a duplicate of the chunk arriving later
+// (second seed, archive) writes nothing; unrelated entries stay.
+// ===========================================================================
+struct Out2 {
+    pos: u64,
+    n: usize,
+    w_off: [u64; 6],
+    w_len: [usize; 6],
+    w_b0: [u8; 6],
+    w_last: [u8; 6],
+}
+impl AsyncWrite for Out2 {
+    fn poll_write(mut self: Pin<&mut Self>, _cx: &mut Context<'_>, buf: &[u8]) -> Poll<io::Result<usize>> {
+        let me = &mut *self;
+        assert!(me.n < 6, "mock bound: too many writes");
+        me.w_off[me.n] = me.pos;
+        me.w_len[me.n] = buf.len();
+        me.w_b0[me.n] = if buf.len() > 0 { buf[0] } else { 0 };
+        me.w_last[me.n] = if buf.len() > 0 { buf[buf.len() - 1] } else { 0 };
+        me.n += 1;
+        me.pos += buf.len() as u64;
+        Poll::Ready(Ok(buf.len()))
+    }
+    fn poll_flush(self: Pin<&mut Self>, _cx: &mut Context<'_>) -> Poll<io::Result<()>> {
+        Poll::Ready(Ok(()))
+    }
+    fn poll_shutdown(self: Pin<&mut Self>, _cx: &mut Context<'_>) -> Poll<io::Result<()>> {
+        Poll::Ready(Ok(()))
+    }
+}
+impl AsyncSeek for Out2 {
+    fn start_seek(mut self: Pin<&mut Self>, position: SeekFrom) -> io::Result<()> {
+        match position {
+            SeekFrom::Start(p) => {
+                self.pos = p;
+                Ok(())
+            }
+            _ => panic!("only absolute seeks expected"),
+        }
+    }
+    fn poll_complete(self: Pin<&mut Self>, _cx: &mut Context<'_>) -> Poll<io::Result<u64>> {
+        Poll::Ready(Ok(self.pos))
+    }
+}
+fn feed2(co: &mut CloneOutput<Out2>, v: &VerifiedChunk) -> io::Result<usize> {
+    let mut cx = noop_cx();
+    let fut = co.feed(v);
+    tokio::pin!(fut);
+    match fut.as_mut().poll(&mut cx) {
+        Poll::Ready(r) => r,
+        Poll::Pending => panic!("feed pending on a ready output"),
+    }
+}
+/// chunk A (3 bytes) occurs at two offsets, chunk B (2 bytes) at one; feeds: A, A again (duplicate), C (not in the
+/// index), B.  Chunk data symbolic; hashes, sizes and offsets concrete.
+#[kani::proof]
+#[kani::unwind(8)]
+fn c13_feed_run_multi_offset_duplicate() {
+    let a: [u8; 3] = kani::any();
+    let b: [u8; 2] = kani::any();
+    // offsets concrete as well (a symbolic offset makes the sorted insert / the offset loop symbolic control flow)
+    let oa: [u64; 2] = [3, 10];
+    let ob: u64 = 6;
+    let mut idx = ChunkIndex::new_empty(2);
+    crate::chunk_index::kani_proofs::add_entry2(&mut idx, &[0xA0u8, 1, 9], 3, oa[0], oa[1]);
+    crate::chunk_index::kani_proofs::add_entry(&mut idx, &[0xB0u8, 2], 2, ob);
+    assert!(idx.len() == 2);
+    let out = Out2 { pos: 0, n: 0, w_off: [0; 6], w_len: [0; 6], w_b0: [0; 6], w_last: [0; 6] };
+    let mut co = CloneOutput::new(out, idx);
+    let va = VerifiedChunk { chunk: Chunk(Bytes::copy_from_slice(&a[..])), hash_sum: HashSum::from(&[0xA0u8, 1, 5, 5][..]) };
+    let vb = VerifiedChunk { chunk: Chunk(Bytes::copy_from_slice(&b[..])), hash_sum: HashSum::from(&[0xB0u8, 2, 5, 5][..]) };
+    let vc = VerifiedChunk { chunk: Chunk(Bytes::copy_from_slice(&b[..])), hash_sum: HashSum::from(&[0xC0u8, 3, 5, 5][..]) };
+    // 1. A: written at both of its offsets, all bytes, once each; the entry is gone
+    let r1 = feed2(&mut co, &va);
+    assert!(matches!(r1, Ok(6)));
+    assert!(co.inner.n == 2);
+    assert!(co.inner.w_off[0] == oa[0] && co.inner.w_off[1] == oa[1]);
+    assert!(co.inner.w_len[0] == 3 && co.inner.w_len[1] == 3);
+    assert!(co.inner.w_b0[0] == a[0] && co.inner.w_last[0] == a[2] && co.inner.w_b0[1] == a[0] && co.inner.w_last[1] == a[2]);
+    assert!(co.len() == 1 && !co.chunks().contains(va.hash()));
+    // 2. the same chunk again (from a second seed, or from the archive): nothing is written a second time
+    let r2 = feed2(&mut co, &va);
+    assert!(matches!(r2, Ok(0)));
+    assert!(co.inner.n == 2, "a location was written twice");
+    // 3. a chunk that is not in the index: nothing written, nothing removed
+    let r3 = feed2(&mut co, &vc);
+    assert!(matches!(r3, Ok(0)) && co.inner.n == 2 && co.len() == 1);
+    // 4. B
+    let r4 = feed2(&mut co, &vb);
+    assert!(matches!(r4, Ok(2)));
+    assert!(co.inner.n == 3 && co.inner.w_off[2] == ob && co.inner.w_len[2] == 2 && co.inner.w_b0[2] == b[0] && co.inner.w_last[2] == b[1]);
+    assert!(co.is_empty());
+    kani::cover!(ob > oa[0] && ob < oa[1]);
+    std::mem::forget(r1);
+    std::mem::forget(r2);
+    std::mem::forget(r3);
+    std::mem::forget(r4);
+    std::mem::forget(co);
+    std::mem::forget(va);
+    std::mem::forget(vb);
+    std::mem::forget(vc);
+}
+
+/// one feed of a chunk that occurs at two offsets (data symbolic; hash, size, offsets concrete)
+#[kani::proof]
+#[kani::unwind(6)]
+fn c13_feed_hit_two_offsets() {
+    let a: [u8; 3] = kani::any();
+    let mut idx = ChunkIndex::new_empty(2);
+    crate::chunk_index::kani_proofs::add_entry2(&mut idx, &[0xA0u8, 1, 9], 3, 3, 10);
+    crate::chunk_index::kani_proofs::add_entry(&mut idx, &[0xB0u8, 2], 2, 6);
+    let out = Out2 { pos: 0, n: 0, w_off: [0; 6], w_len: [0; 6], w_b0: [0; 6], w_last: [0; 6] };
+    let mut co = CloneOutput::new(out, idx);
+    let va = VerifiedChunk { chunk: Chunk(Bytes::copy_from_slice(&a[..])), hash_sum: HashSum::from(&[0xA0u8, 1, 5, 5][..]) };
+    let r1 = feed2(&mut co, &va);
+    assert!(matches!(r1, Ok(6)));
+    assert!(co.inner.n == 2);
+    assert!(co.inner.w_off[0] == 3 && co.inner.w_off[1] == 10);
+    assert!(co.inner.w_len[0] == 3 && co.inner.w_len[1] == 3);
+    assert!(co.inner.w_b0[0] == a[0] && co.inner.w_last[0] == a[2] && co.inner.w_b0[1] == a[0] && co.inner.w_last[1] == a[2]);
+    // the entry is gone: no later feed can write these locations again; the unrelated entry stays
+    assert!(co.len() == 1 && !co.chunks().contains(va.hash()));
+    kani::cover!(true);
+    std::mem::forget(r1);
+    std::mem::forget(co);
+    std::mem::forget(va);
+}
+
+// ===========================================================================
 // NOT REGISTERED (kept as the record of an attempt, see DESIGN.md section 7): even with a fully concrete layout
 // this does not leave symbolic execution within 15 minutes.
 // C03 scenario runs: the real planner (`ChunkIndex::reorder_ops`, through
